@@ -31,6 +31,7 @@ import (
 
 	"go.sia.tech/core/gateway"
 	"go.sia.tech/core/types"
+	"go.sia.tech/coreutils"
 	"go.sia.tech/coreutils/chain"
 	"go.sia.tech/coreutils/syncer"
 	"verifharness/netx"
@@ -53,6 +54,11 @@ type lateOp struct {
 	node int
 	n    int
 	v1   bool
+	// pool: the node has transactions in its pool (a v1 one where v1 transactions are still legal,
+	// a v2 one where v2 transactions already are), mines ONE block with them (coreutils.MineBlock)
+	// and relays it as an outline built before the block was added, i.e. with the pool transactions
+	// replaced by their hashes: a receiver on the block's parent has to ask for them
+	pool bool
 }
 
 type spec struct {
@@ -239,6 +245,32 @@ func coreSpecs() []spec {
 		add(spec{name: "core-one-behind-after-settle-" + ob.name + "-3nodes", allow: ob.allow, require: ob.require, mainLen: ob.h, branches: []branch{m(ob.h), m(ob.h), m(ob.h)}, topo: "line",
 			late: []lateOp{{node: 2, n: 1, v1: ob.v1}}, announce: "once"})
 	}
+	// a miner with a non-empty pool relays its block as an outline whose pool transactions are
+	// hashes only; the receivers sit on the block's parent and have empty pools
+	for _, po := range []struct {
+		name            string
+		allow, require  uint64
+		h, nodes, miner int
+		once            bool
+	}{
+		{"window-2nodes", 6, 10, 7, 2, 0, true},
+		{"window-3nodes-line", 6, 10, 7, 3, 0, false},
+		{"at-allow", 6, 10, 5, 2, 1, true},
+		{"last-before-require", 6, 10, 8, 3, 2, true},
+		{"above-require", 6, 10, 13, 2, 0, true},
+		{"window-n8-20", 8, 20, 12, 3, 1, false},
+	} {
+		br := make([]branch, po.nodes)
+		for i := range br {
+			br[i] = m(po.h)
+		}
+		sp := spec{name: "core-pool-outline-" + po.name, allow: po.allow, require: po.require, mainLen: po.h, branches: br, topo: "line",
+			late: []lateOp{{node: po.miner, n: 1, pool: true}}}
+		if po.once {
+			sp.announce = "once"
+		}
+		add(sp)
+	}
 	// small request sizes (every node started with the same WithMaxSendBlocks)
 	add(spec{name: "core-sendcap-3", mainLen: 16, branches: []branch{m(16), m(2), f(9, 4, 2*time.Second)}, topo: "line", sendCap: 3})
 	add(spec{name: "core-sendcap-1", mainLen: 14, branches: []branch{f(3, 5, 2*time.Second), m(14)}, topo: "line", sendCap: 1})
@@ -317,6 +349,9 @@ func randomSpec(rng *vh.RNG, i int) spec {
 		}
 		v1 := uint64(h+1) < s.require && rng.Chance(2, 3)
 		s.late = []lateOp{{node: rng.Intn(n), n: 1 + rng.Intn(2), v1: v1}}
+		if uint64(h+1) >= s.allow && rng.Bool() {
+			s.late = []lateOp{{node: rng.Intn(n), n: 1, pool: true}}
+		}
 		if rng.Bool() {
 			s.announce = "once"
 		}
@@ -403,8 +438,37 @@ func runSpec(s spec, ip string) *vh.Case {
 	// mines is still on its initial tip when the network has settled)
 	eff := append([][]types.Block(nil), chains...)
 	lateBlocks := map[int][]types.Block{}
+	lateOutline := map[int]*gateway.V2BlockOutline{}
 	for k, op := range s.late {
 		f := nt.ChainFrom(eff[op.node])
+		if op.pool {
+			h := uint64(len(eff[op.node])) + 1
+			if h < s.require {
+				f.CM.AddPoolTransactions([]types.Transaction{{ArbitraryData: [][]byte{[]byte(fmt.Sprintf("pool v1 %d", k))}}})
+			}
+			if h >= s.allow {
+				f.CM.AddV2PoolTransactions(f.CM.Tip(), []types.V2Transaction{{ArbitraryData: []byte(fmt.Sprintf("pool v2 %d", k))}})
+			}
+			b, ok := coreutils.MineBlock(f.CM, types.Address{0x41, byte(k)}, 20*time.Second)
+			if !ok {
+				c.Oracle("harness-late-block", "could not mine the pool block")
+				return c
+			}
+			if b.V2 != nil {
+				ol := gateway.OutlineBlock(b, f.CM.PoolTransactions(), f.CM.V2PoolTransactions())
+				lateOutline[op.node] = &ol
+			}
+			if err := f.CM.AddBlocks([]types.Block{b}); err != nil {
+				c.Oracle("harness-late-block", "pool block rejected by its own miner: %v", err)
+				return c
+			}
+			f.Blocks = append(f.Blocks, b)
+			f.States = append(f.States, f.CM.TipState())
+			lateBlocks[op.node] = append(lateBlocks[op.node], b)
+			reg.AddChain(f)
+			eff[op.node] = f.Blocks
+			continue
+		}
 		for j := 0; j < op.n; j++ {
 			b := f.Mine(netx.MineOpts{V1: op.v1, Dt: 2 * time.Second, Addr: types.Address{0x40, byte(k), byte(j)}})
 			lateBlocks[op.node] = append(lateBlocks[op.node], b)
@@ -474,6 +538,9 @@ func runSpec(s spec, ip string) *vh.Case {
 		kind := "v2"
 		if op.v1 {
 			kind = "v1"
+		}
+		if op.pool {
+			kind = "pool-outline"
 		}
 		c.Tags = append(c.Tags, fmt.Sprintf("late-block:%s", kind))
 	}
@@ -599,6 +666,13 @@ func runSpec(s spec, ip string) *vh.Case {
 				if err := nodes[op.node].n.CM.AddBlocks([]types.Block{b}); err != nil {
 					c.Oracle("harness-late-block", "node %d rejected its own late block: %v", op.node, err)
 				}
+			}
+			if ol := lateOutline[op.node]; ol != nil {
+				// the miner announces its block the way a miner does: header, then the outline it built
+				// from its pool (pool transactions as hashes only)
+				b := lateBlocks[op.node][len(lateBlocks[op.node])-1]
+				nodes[op.node].n.S.BroadcastV2Header(b.Header())
+				nodes[op.node].n.S.BroadcastV2BlockOutline(*ol)
 			}
 		}
 	}
